@@ -1080,6 +1080,28 @@ vbi3_bit_slicer_set_params	(vbi3_bit_slicer *	bs,
 		break;
 	}
 
+	{
+		/* Farthest sample read after a CRI match at search position p,
+		   relative to p: SAMPLE() reads (i >> 8) and the next sample,
+		   the low pass slicer has advanced one sample and reads a
+		   16 sample window. Stop the CRI search early enough. */
+		unsigned int far = (bs->phase_shift
+				    + (data_bits - 1) * bs->step) >> 8;
+		unsigned int tail = far
+			+ ((low_pass_bit_slicer_Y8 == bs->func) ?
+			   (1U << LP_AVG) : 1);
+		unsigned int avail = samples_per_line - sample_offset;
+
+		if (0 == data_bits)
+			tail = (low_pass_bit_slicer_Y8 == bs->func) ?
+				(1U << LP_AVG) : 1;
+
+		if (tail >= avail)
+			goto failure;
+
+		bs->cri_samples = MIN (bs->cri_samples, avail - tail);
+	}
+
 	return TRUE;
 
  failure:
